@@ -1,1 +1,146 @@
-pub fn unused() {}
+//! Running the real `pasfmt` binary (built from the working tree with feature `verif`).
+
+use std::io::{Read, Write};
+use std::path::{Path, PathBuf};
+use std::process::{Command, Stdio};
+use std::time::{Duration, Instant};
+
+pub struct RunOut {
+    pub code: Option<i32>,
+    pub signal: Option<i32>,
+    pub stdout: Vec<u8>,
+    pub stderr: Vec<u8>,
+    pub timed_out: bool,
+}
+
+impl RunOut {
+    pub fn ok(&self) -> bool {
+        self.code == Some(0)
+    }
+    pub fn stderr_text(&self) -> String {
+        String::from_utf8_lossy(&self.stderr).to_string()
+    }
+}
+
+pub struct Invocation<'a> {
+    pub bin: &'a Path,
+    pub args: Vec<String>,
+    pub cwd: &'a Path,
+    pub stdin: Option<Vec<u8>>,
+    pub env: Vec<(String, String)>,
+    /// run as the unprivileged user `nobody` (file modes are ignored for root)
+    pub as_nobody: bool,
+}
+
+pub fn run(inv: Invocation) -> RunOut {
+    let mut cmd = if inv.as_nobody {
+        let mut c = Command::new("setpriv");
+        c.args(["--reuid=65534", "--regid=65534", "--clear-groups"]).arg(inv.bin);
+        c
+    } else {
+        Command::new(inv.bin)
+    };
+    cmd.args(&inv.args).current_dir(inv.cwd).stdout(Stdio::piped()).stderr(Stdio::piped());
+    cmd.stdin(if inv.stdin.is_some() { Stdio::piped() } else { Stdio::null() });
+    cmd.env_remove("RAYON_NUM_THREADS");
+    for (k, v) in &inv.env {
+        cmd.env(k, v);
+    }
+    let mut child = match cmd.spawn() {
+        Ok(c) => c,
+        Err(e) => {
+            return RunOut { code: None, signal: None, stdout: vec![], stderr: format!("spawn failed: {e}").into_bytes(), timed_out: false };
+        }
+    };
+    let stdin_thread = inv.stdin.map(|data| {
+        let mut si = child.stdin.take().unwrap();
+        std::thread::spawn(move || {
+            let _ = si.write_all(&data);
+        })
+    });
+    let mut so = child.stdout.take().unwrap();
+    let mut se = child.stderr.take().unwrap();
+    let t_out = std::thread::spawn(move || {
+        let mut v = vec![];
+        let _ = so.read_to_end(&mut v);
+        v
+    });
+    let t_err = std::thread::spawn(move || {
+        let mut v = vec![];
+        let _ = se.read_to_end(&mut v);
+        v
+    });
+    let t0 = Instant::now();
+    let mut timed_out = false;
+    let status = loop {
+        match child.try_wait() {
+            Ok(Some(st)) => break Some(st),
+            Ok(None) => {
+                if t0.elapsed() > Duration::from_secs(60) {
+                    let _ = child.kill();
+                    let _ = child.wait();
+                    timed_out = true;
+                    break None;
+                }
+                std::thread::sleep(Duration::from_millis(2));
+            }
+            Err(_) => break None,
+        }
+    };
+    if let Some(t) = stdin_thread {
+        let _ = t.join();
+    }
+    let stdout = t_out.join().unwrap_or_default();
+    let stderr = t_err.join().unwrap_or_default();
+    use std::os::unix::process::ExitStatusExt;
+    RunOut { code: status.and_then(|s| s.code()), signal: status.and_then(|s| s.signal()), stdout, stderr, timed_out }
+}
+
+pub fn simple(bin: &Path, cwd: &Path, args: &[&str], stdin: Option<&[u8]>) -> RunOut {
+    run(Invocation { bin, args: args.iter().map(|s| s.to_string()).collect(), cwd, stdin: stdin.map(|s| s.to_vec()), env: vec![], as_nobody: false })
+}
+
+/// scratch directory for one case, removed on drop
+pub struct Scratch {
+    pub path: PathBuf,
+}
+impl Scratch {
+    pub fn new(base: &Path, tag: &str) -> Scratch {
+        let path = base.join(format!("{tag}-{}-{:x}", std::process::id(), crate::rng::hash_str(&format!("{tag}{:?}", Instant::now()))));
+        let _ = std::fs::remove_dir_all(&path);
+        std::fs::create_dir_all(&path).expect("create scratch dir");
+        // world-accessible so that the `nobody` runs can traverse it
+        let _ = set_mode(&path, 0o755);
+        Scratch { path }
+    }
+}
+impl Drop for Scratch {
+    fn drop(&mut self) {
+        // restore modes so that removal works
+        let _ = Command::new("chmod").arg("-R").arg("u+rwx").arg(&self.path).output();
+        let _ = std::fs::remove_dir_all(&self.path);
+    }
+}
+
+pub fn set_mode(p: &Path, mode: u32) -> std::io::Result<()> {
+    use std::os::unix::fs::PermissionsExt;
+    std::fs::set_permissions(p, std::fs::Permissions::from_mode(mode))
+}
+
+#[derive(Clone, Debug, PartialEq, Eq)]
+pub struct Stat {
+    pub len: u64,
+    pub mtime_ns: i128,
+    pub ino: u64,
+}
+
+pub fn stat(p: &Path) -> Option<Stat> {
+    use std::os::unix::fs::MetadataExt;
+    let m = std::fs::metadata(p).ok()?;
+    Some(Stat { len: m.len(), mtime_ns: m.mtime() as i128 * 1_000_000_000 + m.mtime_nsec() as i128, ino: m.ino() })
+}
+
+/// make sure a later write gets a different mtime
+pub fn age_file(p: &Path) {
+    let _ = Command::new("touch").args(["-d", "2001-01-01 00:00:00"]).arg(p).output();
+}
